@@ -29,10 +29,14 @@ RULE = ("(1) kinds: the COMPLETE product {sun_zenith_angle, cos_zen, get_alt_az,
         "broadcasting (1e-6 of the unit, angles modulo a turn) for get_position, get_lonlatalt, both look functions, the sun "
         "functions, observer_position, gmst, jdays; element sets: real near-circular ones, generated near-earth ones and "
         "eccentric near-earth ones (e 0.02-0.35), instants with a propagated radius of 6300-100000 km; "
+        "every second case: the arrays are KEPT by the caller across the same array call 1-600 s later and one "
+        "for another satellite (as far from its own epoch), and compared with the scalar calls afterwards as well; "
         "(4) sequences of 5-15 array-taking queries (get_position normalised / km, get_lonlatalt, both look functions, sun functions, "
         "observer_position, gmst) on ONE Orbital object that reuse ONE time-array object and ONE lon/lat/alt array object, with "
         "in-place shifts of those arrays in between (one fixed swath sequence + seeded random ones, shapes (6,) and (2,3)): every "
-        "result vs the scalar calls on a second object (1e-6 of the unit); "
+        "result vs the scalar calls on a second object (1e-6 of the unit), when returned and - the returned arrays being kept "
+        "by the caller - again after every later array call of the sequence; in every second sequence some of the queries go "
+        "to ANOTHER satellite (time arrays of the same shape, moved by the whole seconds between the two epochs); "
         "(5) shapes of variation of the time array: the same ten functions x time kind {object array of datetimes, "
         "datetime64[ns|us|ms|s] arrays} x 1-d (5-9 elements) / 2-d ((2,3) (2,4) (4,2) (3,3) (1,7) (5,1), pattern along rows or down "
         "the columns) x order of the instants {increasing, constant, reversed, shuffled, out and back (first == last), sorted by "
@@ -398,6 +402,11 @@ def sane(o, t):
     return 6300.0 <= r <= 100000.0
 
 
+def epoch_offset_s(o, o2):
+    """whole seconds from o's epoch to o2's: instants moved by it are as far from o2's epoch as they were from o's"""
+    return int((o2.tle.epoch - o.tle.epoch) / np.timedelta64(1, "s"))
+
+
 def sane_times(ctx, o, k, days):
     out = []
     tries = 0
@@ -746,8 +755,11 @@ def broadcast_calls(o):
     }
 
 
-def check_broadcast(o, name, variant, times_us, lons, lats, alts):
-    """Array call of `name` with the variant's shapes vs the scalar calls. Returns (n_compared, [violations])."""
+def check_broadcast(o, name, variant, times_us, lons, lats, alts, then=None):
+    """Array call of `name` with the variant's shapes vs the scalar calls. Returns (n_compared, [violations]).
+    then = {"shift_s": s, "other": [line1, line2, whole seconds between the epochs] | None}: the caller keeps the arrays it was given, makes the same array call
+    s seconds later (same shapes; same satellite) and once more for another satellite, and compares what it kept with the
+    scalar calls AFTERWARDS as well."""
     tshape, cshape = VARIANTS[variant]
     fa, fs, needs_coords, wrap, pos_layout = broadcast_calls(o)[name]
     T = np.array([np.datetime64(int(u), "us") for u in times_us]).reshape(tshape)
@@ -766,24 +778,36 @@ def check_broadcast(o, name, variant, times_us, lons, lats, alts):
         if pos_layout:
             # get_position returns two (3, *shape) arrays
             arr = [c for block in arr for c in np.asarray(block)]
+        kept = None
+        if then:
+            kept = arr                                     # the objects the caller was given
+            arr = [np.array(a, copy=True) for a in kept]   # their values as returned
+            fa(T + np.timedelta64(int(then["shift_s"]), "s"), lo, la, al)
+            if then.get("other"):
+                from pyorbital import orbital
+                o2 = orbital.Orbital("y", line1=then["other"][0], line2=then["other"][1])
+                broadcast_calls(o2)[name][0](T + np.timedelta64(int(then["other"][2]), "s"), lo, la, al)
         for idx in np.ndindex(common):
             tt = np.broadcast_to(ts, common)[idx]
             l1, l2, l3 = (float(np.broadcast_to(np.asarray(v), common)[idx]) if needs_coords else 0.0 for v in (lo, la, al))
             one = fs(tt, l1, l2, l3)
-            for i, (a, s) in enumerate(zip(arr, one)):
-                cnt += 1
-                shp = tuple(np.shape(a))
-                try:
-                    av = float(np.broadcast_to(np.asarray(a, dtype=float), common)[idx])
-                except ValueError:
-                    bad.append(("shape", i, list(idx), list(shp), list(common)))
-                    return cnt, bad
-                d = abs(av - float(s))
-                if wrap and wrap[i]:
-                    d = min(d, abs(d - wrap[i]))
-                if not d <= 1e-6:
-                    bad.append(("array_vs_scalar", i, list(idx), av, float(s)))
-                    return cnt, bad
+            for kind, arrs in (("array_vs_scalar", arr), ("array_vs_scalar_after_later_call", kept)):
+                if arrs is None:
+                    continue
+                for i, (a, s) in enumerate(zip(arrs, one)):
+                    cnt += 1
+                    shp = tuple(np.shape(a))
+                    try:
+                        av = float(np.broadcast_to(np.asarray(a, dtype=float), common)[idx])
+                    except ValueError:
+                        bad.append(("shape", i, list(idx), list(shp), list(common)))
+                        return cnt, bad
+                    d = abs(av - float(s))
+                    if wrap and wrap[i]:
+                        d = min(d, abs(d - wrap[i]))
+                    if not d <= 1e-6:
+                        bad.append((kind, i, list(idx), av, float(s)))
+                        return cnt, bad
             if len(arr) != len(one):
                 bad.append(("arity", 0, list(idx), len(arr), len(one)))
                 return cnt, bad
@@ -1142,11 +1166,13 @@ SEQ_OPS = ["pos_n", "pos_km", "lla", "look", "modlook", "sza", "alt_az", "obs", 
 FIXED_SEQ = ["pos_n", "lla", "pos_km", "shift:60", "lla", "pos_km", "pos_n", "look", "cshift:0.5", "look", "obs", "shift:-17", "sza", "pos_n", "pos_n"]
 
 
-def random_sequence(ctx):
+def random_sequence(ctx, other=False):
     ops = []
     for _ in range(ctx.rng.randrange(5, 11)):
         r = ctx.rng.random()
-        if r < 0.2:
+        if other and ctx.rng.random() < 0.3:
+            ops.append(ctx.rng.choice(["o:pos_n", "o:pos_km", "o:pos_km", "o:lla", "o:look"]))   # arrays of the same shape, another satellite
+        elif r < 0.2:
             ops.append("shift:%d" % ctx.rng.choice([1, -1, 37, 60, -90, 600]))
         elif r < 0.27:
             ops.append("cshift:%s" % ctx.rng.choice(["0.25", "-0.5", "1.0"]))
@@ -1157,17 +1183,46 @@ def random_sequence(ctx):
     return ops
 
 
-def run_sequence(line1, line2, tshape, times_us, lons, lats, alts, ops):
+def run_sequence(line1, line2, tshape, times_us, lons, lats, alts, ops, other=None):
     """Consecutive array-taking queries on ONE Orbital object, all given the SAME ndarray of times (and the same
     longitude / latitude / altitude arrays), with in-place shifts of those arrays in between.  Every result is compared
     with the scalar calls for the instants the array holds at that moment, made on a second object that only ever sees
-    scalars (1e-6 of the unit, angles modulo a turn).  Returns (comparisons, [(step, op, component, element, got, want)])."""
+    scalars (1e-6 of the unit, angles modulo a turn).  The caller KEEPS the arrays it was given: after every later array
+    call (all have the same shape) and at the end, every kept result is compared again with the scalar values of its own
+    call.  Ops "o:<op>" are the same queries on ANOTHER satellite (other = [line1, line2, whole seconds between the epochs]) for
+    arrays of the same shape.
+    Returns (comparisons, [(step, op, component, element, got, want)])."""
     from pyorbital import astronomy, orbital
     sat = orbital.Orbital("x", line1=line1, line2=line2)
     ref = orbital.Orbital("x", line1=line1, line2=line2)
+    if other:
+        sat_o = orbital.Orbital("y", line1=other[0], line2=other[1])
+        ref_o = orbital.Orbital("y", line1=other[0], line2=other[1])
+        # the other satellite is asked for the instants of T moved by a whole number of seconds (the distance between the two
+        # epochs: both satellites are then equally far from their own epoch); arrays of the same shape
+        off = np.timedelta64(int(other[2]) if len(other) > 2 else 0, "s")
+        offdt = dt.timedelta(seconds=int(other[2]) if len(other) > 2 else 0)
     T = np.array([np.datetime64(int(u), "us") for u in times_us]).reshape(tshape)
     n = int(np.prod(tshape))
     lo, la, al = (np.array(v[:n], dtype=float).reshape(tshape) for v in (lons, lats, alts))
+    held = []          # (step, op, the returned arrays themselves, wrap, {element: scalar values at the time of the call})
+
+    def recheck(upto, after):
+        """the kept results of the steps before `upto`, element by element, against the scalar values of their own call"""
+        c = 0
+        for hstep, hop, harr, hwrap, hwant in held:
+            if hstep >= upto:
+                continue
+            for idx, one in hwant.items():
+                for i, (a, sc) in enumerate(zip(harr, one)):
+                    c += 1
+                    got = float(np.broadcast_to(np.asarray(a, dtype=float), tshape)[idx])
+                    d = abs(got - float(sc))
+                    if hwrap and hwrap[i]:
+                        d = min(d, abs(d - hwrap[i]))
+                    if not d <= 1e-6:
+                        return c, [(hstep, "%s (result kept by the caller, read again after %s)" % (hop, after), i, list(idx), got, float(sc))]
+        return c, []
     calls = {
         "pos_n": (lambda: [c for blk in sat.get_position(T) for c in np.asarray(blk)],
                   lambda t, a, b, c: flat(tuple(tuple(v) for v in ref.get_position(t))), None),
@@ -1182,6 +1237,16 @@ def run_sequence(line1, line2, tshape, times_us, lons, lats, alts, ops):
         "obs": (lambda: flat(astronomy.observer_position(T, lo, la, al)), lambda t, a, b, c: flat(astronomy.observer_position(t, a, b, c)), None),
         "gmst": (lambda: [astronomy.gmst(T)], lambda t, a, b, c: [astronomy.gmst(t)], [2 * math.pi]),
     }
+    if other:
+        calls.update({
+            "o:pos_n": (lambda: [c for blk in sat_o.get_position(T + off) for c in np.asarray(blk)],
+                        lambda t, a, b, c: flat(tuple(tuple(v) for v in ref_o.get_position(t + offdt))), None),
+            "o:pos_km": (lambda: [c for blk in sat_o.get_position(T + off, normalize=False) for c in np.asarray(blk)],
+                         lambda t, a, b, c: flat(tuple(tuple(v) for v in ref_o.get_position(t + offdt, normalize=False))), None),
+            "o:lla": (lambda: flat(sat_o.get_lonlatalt(T + off)), lambda t, a, b, c: flat(ref_o.get_lonlatalt(t + offdt)), [360.0, None, None]),
+            "o:look": (lambda: flat(sat_o.get_observer_look(T + off, lo, la, al)),
+                       lambda t, a, b, c: flat(ref_o.get_observer_look(t + offdt, a, b, c)), [360.0, None]),
+        })
     bad = []
     cnt = 0
     with warnings.catch_warnings():
@@ -1201,12 +1266,14 @@ def run_sequence(line1, line2, tshape, times_us, lons, lats, alts, ops):
                 bad.append((step, op, 0, [], type(e).__name__ + ": " + str(e)[:120], "a result"))
                 return cnt, bad
             snap = [np.array(np.broadcast_to(np.asarray(a, dtype=float), tshape)) for a in arr]
+            want = {}
             for idx in np.ndindex(tshape):
                 tt = T[idx].astype("datetime64[us]").item()
                 one = fs(tt, float(lo[idx]), float(la[idx]), float(al[idx]))
                 if len(one) != len(snap):
                     bad.append((step, op, 0, list(idx), len(snap), len(one)))
                     return cnt, bad
+                want[idx] = [float(v) for v in one]
                 for i, (a, sc) in enumerate(zip(snap, one)):
                     cnt += 1
                     d = abs(float(a[idx]) - float(sc))
@@ -1215,6 +1282,11 @@ def run_sequence(line1, line2, tshape, times_us, lons, lats, alts, ops):
                     if not d <= 1e-6:
                         bad.append((step, op, i, list(idx), float(a[idx]), float(sc)))
                         return cnt, bad
+            held.append((step, op, arr, wrap, want))
+            c, b = recheck(step, "step %d (%s)" % (step, op))
+            cnt += c
+            if b:
+                return cnt, b
     return cnt, bad
 
 
@@ -1263,17 +1335,30 @@ def oracle(ctx):
         lats = [ctx.rng.uniform(-90, 90) for _ in ts]
         alts = [ctx.rng.uniform(0, 2) for _ in ts]
         variant = list(VARIANTS)[k % len(VARIANTS)]
+        # every second case: the results are kept across the same array call a little later and one for another satellite
+        then = None
+        if (k // len(VARIANTS)) % 2 == 1:
+            shift = ctx.rng.choice([1, 37, 97, 600, -600])
+            if all(sane(o, t + dt.timedelta(seconds=shift)) for t in ts):
+                then = {"shift_s": shift, "other": None}
+                oa, ob, oo = objs[(k + 1) % len(objs)]
+                off_s = epoch_offset_s(o, oo)
+                if (oa, ob) != (a_, b_) and all(sane(oo, t + dt.timedelta(seconds=off_s)) for t in ts):
+                    then["other"] = [oa, ob, off_s]
         for name in names:
             try:
-                n, bad = check_broadcast(o, name, variant, times_us, lons, lats, alts)
+                n, bad = check_broadcast(o, name, variant, times_us, lons, lats, alts, then)
             except Exception as e:  # noqa
                 n, bad = 1, [("raises", 0, [], type(e).__name__ + ": " + str(e)[:120], "a result")]
             ctx.count("eval_oracle_broadcast", n)
             ctx.bump("broadcast_variant", variant)
+            ctx.bump("broadcast_results_kept", "across a later call" + (" and another satellite's" if then and then["other"] else "")
+                     if then else "compared when returned")
             ctx.distinct(("bc", name, variant, a_[2:7], times_us[0]))
             for kind, i, idx, got, ref in bad:
                 ctx.violation(kind, {"check": "broadcast", "fn": name, "variant": variant, "line1": a_, "line2": b_, "times_us": times_us,
-                                     "lons": lons, "lats": lats, "alts": alts, "component": i, "element": idx}, got, ref, site=name)
+                                     "lons": lons, "lats": lats, "alts": alts, "then": then, "component": i, "element": idx},
+                              got, ref, site=name)
 
 
     # (4) sequences of array-taking queries on one Orbital object reusing one time array (and one lon/lat/alt array) object
@@ -1290,15 +1375,26 @@ def oracle(ctx):
         lons = [ctx.rng.uniform(-179, 179) for _ in ts]
         lats = [ctx.rng.uniform(-89, 89) for _ in ts]
         alts = [ctx.rng.uniform(0, 2) for _ in ts]
-        ops = FIXED_SEQ if k < 2 else random_sequence(ctx)
-        n, bad = run_sequence(a_, b_, tshape, times_us, lons, lats, alts, ops)
+        # every second sequence: some of the queries go to ANOTHER satellite (time arrays of the same shape, as far from its epoch)
+        other = None
+        if k % 2 == 1 or k >= 2 and k % 4 == 0:
+            oa, ob, oo = objs[(k + 1 + ctx.rng.randrange(len(objs) - 1)) % len(objs)] if len(objs) > 1 else objs[0]
+            off_s = epoch_offset_s(o, oo)
+            if (oa, ob) != (a_, b_) and all(sane(oo, t + dt.timedelta(seconds=off_s + s_)) for t in ts for s_ in (-3600, 0, 3600)):
+                other = [oa, ob, off_s]
+        ops = FIXED_SEQ if k < 2 else random_sequence(ctx, other is not None)
+        if k == 1 and other:
+            ops = [("o:" + op_ if j % 3 == 1 and op_ in ("pos_n", "pos_km", "lla", "look") else op_) for j, op_ in enumerate(FIXED_SEQ)]
+        n, bad = run_sequence(a_, b_, tshape, times_us, lons, lats, alts, ops, other)
         ctx.count("eval_oracle_sequence", n)
         ctx.bump("sequence_length", len(ops))
+        ctx.bump("sequence_satellites", "two satellites" if other else "one satellite")
         ctx.distinct(("seq", a_[2:7], times_us[0], " ".join(ops)))
         for step, op, i, idx, got, ref in bad:
             ctx.violation("array_vs_scalar_in_sequence",
                           {"check": "sequence", "line1": a_, "line2": b_, "tshape": list(tshape), "times_us": times_us, "lons": lons,
-                           "lats": lats, "alts": alts, "ops": list(ops), "step": step, "op": op, "component": i, "element": idx},
+                           "lats": lats, "alts": alts, "ops": list(ops), "other": other, "step": step, "op": op, "component": i,
+                           "element": idx},
                           got, ref, site="Orbital (sequence of queries): " + op)
 
 
@@ -1468,7 +1564,8 @@ def replay(ctx, case):
         print(inp["fn"], inp["utc"], "->", "%d of %d representations differ" % (len(bad), n))
         return 1 if bad else 0
     if chk == "sequence":
-        n, bad = run_sequence(inp["line1"], inp["line2"], tuple(inp["tshape"]), inp["times_us"], inp["lons"], inp["lats"], inp["alts"], inp["ops"])
+        n, bad = run_sequence(inp["line1"], inp["line2"], tuple(inp["tshape"]), inp["times_us"], inp["lons"], inp["lats"], inp["alts"], inp["ops"],
+                              inp.get("other"))
         for b in bad:
             print("violation: step %d (%s) component %d element %s: array %r, scalar call %r" % b)
         print("sequence", " ".join(inp["ops"]), "->", "%d violation(s) in %d comparisons" % (len(bad), n))
@@ -1486,7 +1583,7 @@ def replay(ctx, case):
         return 1 if bad else 0
     if chk == "broadcast":
         try:
-            n, bad = check_broadcast(o, inp["fn"], inp["variant"], inp["times_us"], inp["lons"], inp["lats"], inp["alts"])
+            n, bad = check_broadcast(o, inp["fn"], inp["variant"], inp["times_us"], inp["lons"], inp["lats"], inp["alts"], inp.get("then"))
         except Exception as e:  # noqa
             n, bad = 1, [("raises", type(e).__name__ + ": " + str(e)[:120])]
         for b in bad:
